@@ -53,6 +53,7 @@ def child_env(extra=None):
     env['MKL_NUM_THREADS'] = '1'
     env[GUARD] = '1'
     env['VERIF_INNER'] = '1'
+    env['TQDM_DISABLE'] = '1'
     env.pop('PYTHONSTARTUP', None)
     if extra:
         env.update(extra)
